@@ -234,6 +234,21 @@ def closed_alloc_map(c):
     return F("heap.closed", z3.ForAll([x], z3.Implies(c.pre.d_dom(AM, m, x), z3.And(c.pre.d_val(AM, m, x) > 0, c.pre.d_val(AM, m, x) < c.alloc0)), patterns=[c.pre.d_val(AM, m, x)]))
 
 
+def closed_alloc_map_of(c, r):
+    """heap closedness for the maps of a Resources object r"""
+    m = am(c.pre, r)
+    x = z3.Int(H.fresh_name("cl_x"))
+    return F(
+        "heap.closed",
+        z3.And(
+            rv(c.pre, r) < c.alloc0,
+            tot(c.pre, r) < c.alloc0,
+            m < c.alloc0,
+            z3.ForAll([x], z3.Implies(c.pre.d_dom(AM, m, x), z3.And(c.pre.d_val(AM, m, x) > 0, c.pre.d_val(AM, m, x) < c.alloc0)), patterns=[c.pre.d_val(AM, m, x)]),
+        ),
+    )
+
+
 def _list_now(c, h):
     self_, d, m, comp, lst0 = _alloc_names(c)
     return h.d_val(AM, m, comp)
@@ -533,3 +548,94 @@ Contract(
 @lemma("C04")
 def sum_theory_induction_steps():
     return Σ.induction_obligations()
+
+
+# =================================================================================================
+# Resources.__add__ : summing two ledgers is an OBSERVATION -- it changes neither operand (C04, seed C04-3)
+# =================================================================================================
+Contract(
+    "workload.resources.Resources.__init__",
+    params={"self": T.Ref(RESOURCES), "resource_vector": RV, "_logger": T.OPAQUE},
+    trusted=True,
+    allocates=True,
+    modifies=lambda c: {c.pre.fld_arr(RESOURCES, f)[0]: [c.arg("self")] for f in ("_resource_vector", "_Resources__total_resources", "_current_allocations", "_Resources__virtual")},
+    ensures=lambda c: z3.And(
+        c.f(c.arg("self"), RESOURCES, "_resource_vector") >= c.alloc0,
+        c.f(c.arg("self"), RESOURCES, "_Resources__total_resources") >= c.alloc0,
+        c.f(c.arg("self"), RESOURCES, "_current_allocations") >= c.alloc0,
+    ),
+    note="Resources.__init__ (as used by __add__: no resource vector given): a fresh object with fresh, empty maps; body not verified (copy() of Resource keys, class name lookup for the logger)",
+    props=P04,
+)
+
+
+def _radd_inv(c, L):
+    names = ("resource_vector", "total_resources_vector", "current_allocations")
+    fresh = [z3.And(L.var(n) >= c.alloc0, L.var(n) < c.run.cur_alloc()) for n in names if L.has(n)]
+    m = L.var("current_allocations") if L.has("current_allocations") else None
+    out = {"locals_fresh": z3.And(*fresh) if fresh else z3.BoolVal(True)}
+    if m is not None:
+        x = z3.Int(H.fresh_name("ra_x"))
+        # the per-computation lists of the result are lists created here, never an operand's list
+        out["result_lists_fresh"] = z3.ForAll([x], z3.Implies(c.post.d_dom(AM, m, x), z3.And(c.post.d_val(AM, m, x) >= c.alloc0, c.post.d_val(AM, m, x) < c.run.cur_alloc())), patterns=[c.post.d_val(AM, m, x)])
+    return out
+
+
+def _radd_mod(c):
+    # everything the loops write is allocated inside __add__: the frame obligations (loop.writes_only_fresh_objects.*,
+    # frame.*) demand that no pre-existing object changes
+    return {}
+
+
+def _radd_vec_mod(which):
+    def mod(c):
+        fr = c.run.frames[-1].env
+        d = fr.get(which)
+        return {c.pre.carr(RV, part)[0]: [d.z] for part in ("len", "keys", "idx", "dom", "val")}
+
+    return mod
+
+
+def _radd_alloc_inv(c, L):
+    out = dict(_radd_inv(c, L))
+    l_ = z3.Int(H.fresh_name("ra_l"))
+    h = c.post
+    # the allocation lists that existed on entry (the operands' lists) are exactly as they were
+    out["operand_lists_untouched"] = z3.ForAll(
+        [l_],
+        z3.Implies(z3.And(0 <= l_, l_ < c.alloc0), z3.And(h.c_len(AL, l_) == c.pre.c_len(AL, l_), h.l_elems(AL, l_) == c.pre.l_elems(AL, l_))),
+        patterns=[h.c_len(AL, l_)],
+    )
+    return out
+
+
+def _radd_alloc_mod(c):
+    fr = c.run.frames[-1].env
+    m = fr.get("current_allocations")
+    out = {c.pre.carr(AL, "len")[0]: ANY, c.pre.carr(AL, "elem")[0]: ANY}
+    for part in ("len", "keys", "idx", "dom", "val"):
+        out[c.pre.carr(AM, part)[0]] = [m.z]
+    return out
+
+
+Contract(
+    "workload.resources.Resources.__add__",
+    params={"self": T.Ref(RESOURCES), "other": T.Ref(RESOURCES)},
+    ret=T.Ref(RESOURCES),
+    requires=lambda c: {"operands_wf": z3.And(c.arg("other") != 0, wf_resources(c.pre, c.arg("self")), wf_resources(c.pre, c.arg("other")))},
+    modifies=lambda c: {},
+    loops={
+        0: Loop(inv=_radd_inv, modifies=_radd_vec_mod("resource_vector")),
+        1: Loop(inv=_radd_inv, modifies=_radd_vec_mod("resource_vector")),
+        2: Loop(inv=_radd_inv, modifies=_radd_vec_mod("total_resources_vector")),
+        3: Loop(inv=_radd_inv, modifies=_radd_vec_mod("total_resources_vector")),
+        4: Loop(inv=_radd_alloc_inv, modifies=_radd_alloc_mod),
+        5: Loop(inv=_radd_alloc_inv, modifies=_radd_alloc_mod),
+    },
+    locals={"resource_vector": RV, "total_resources_vector": RV, "current_allocations": AM},
+    ensures=lambda c: {"add.result_is_a_new_object": z3.And(c.res >= c.alloc0, rv(c.post, c.res) >= c.alloc0, am(c.post, c.res) >= c.alloc0)},
+    entry_facts=lambda c: [closed_alloc_map_of(c, c.arg("self")), closed_alloc_map_of(c, c.arg("other"))],
+    allocates=True,
+    note="C04: the sum of two ledgers (WorkerPool.resources, utilisation logging) is a fresh object and NO pre-existing object is written (frame obligations): an observer cannot corrupt a ledger",
+    props=P04,
+)
